@@ -21,6 +21,11 @@ def catalogue(tier):
     reqs.append((m1.VALID_PIPES[3], m1.VALID_OPTS[4]))
     reqs.append((m1.VALID_PIPES[5], m1.VALID_OPTS[5]))
     reqs.append((m1.VALID_PIPES[5], m1.VALID_OPTS[6]))
+    # an (empty) options entry for a step that is not in the pipeline is
+    # legitimate and ignored: these are different requests from the pipeline
+    # that contains the step
+    reqs.append((m1.VALID_PIPES[2], {"correct_tip_offset": {}}))
+    reqs.append((m1.VALID_PIPES[1], {"correct_force_offset": {}}))
     for p in m1.INVALID_PIPES:
         reqs.append((p, {}))
     for o in m1.INVALID_OPTS:
